@@ -11,7 +11,7 @@ import vp
 import c07
 
 NAMES = ["detect", "build", "bin", "detect.sh"]
-TOMLS = ["ok", "api09", "api10", "ok-broken-rest", "malformed", "absent", "bpdir-unset", "api-not-string", "api-wraps", "api-wraps-major"]
+TOMLS = ["ok", "ok-sbom-formats", "api09", "api10", "ok-broken-rest", "malformed", "absent", "bpdir-unset", "api-not-string", "api-wraps", "api-wraps-major"]
 PLATFORMS = ["ok", "no-env-dir", "env-is-file", "plan-missing", "plan-malformed"]
 SBOMS = ["cdx", "spdx", "syft"]
 DETECT_BEH = ["pass", "plan", "fail", "err"]
@@ -35,6 +35,8 @@ def toml_text(kind):
     return {"ok": phase.BP_TOML_OK, "api09": phase.BP_TOML_OK.replace('"0.10"', '"0.9"'), "api10": phase.BP_TOML_OK.replace('"0.10"', '"1.0"'),
             "ok-broken-rest": 'api = "0.10"\n\n[buildpack]\nid = "vp/scripted"\n', "malformed": "api = = 0.10\n[[[", "api-not-string": phase.BP_TOML_OK.replace('"0.10"', "0.10"),
             # 2^64 + 10 and 2^64 + 0: a different API version than 0.10, whatever a 64-bit parser makes of it
+            # sbom-formats declares what the buildpack MAY emit; it is metadata for the platform, not a filter for what the build returned
+            "ok-sbom-formats": phase.BP_TOML_OK + 'sbom-formats = ["application/vnd.cyclonedx+json"]\n',
             "api-wraps": phase.BP_TOML_OK.replace('"0.10"', '"0.18446744073709551626"'), "api-wraps-major": phase.BP_TOML_OK.replace('"0.10"', '"18446744073709551616.10"')}.get(kind)
 
 
@@ -63,6 +65,9 @@ def make_script(cfg, r, lay):
             bb["store"] = tomlw.tagged(bb["store_intent"])
         else:
             bb["store"] = None
+        order = ["launch", "store", "bsbom", "lsbom"]
+        r.shuffle(order)
+        bb["order"] = order          # the order in which the BuildResultBuilder setters are called
         s["build"] = bb
     return s
 
